@@ -104,4 +104,12 @@ theorem snapOps_laws (objSize : Nat → Option Nat) : Laws (snapOps objSize) whe
       subst hxs
       exact packInts_ne_nil
 
+/-- What the sender glue builds while `Storage::free` is empty (`new_builder` = `Builder::new()`):
+the items are added in the given order to a fresh builder. `none` = a builder error or panic. -/
+def freshBuild (items : List (TypeId × Nat × List Int)) : Option Tw.Snap.Snap :=
+  (items.foldl (fun ob it => ob.bind fun b =>
+      match b.addItem it.1 it.2.1 it.2.2 with
+      | some (b', none) => some b'
+      | _ => none) (some Builder.new)).map (·.snap)
+
 end Tw.SnapMgr
